@@ -28,6 +28,7 @@ type Case struct {
 	OnInt string `json:"onint"` // die | ignore
 	OK    bool   `json:"ok"`
 	Neg   bool   `json:"neg"`
+	After int64  `json:"after"` // > 0: second script of a sequential RunT call whose first script leaves at t0 + after
 }
 
 // Obs is one observation, the record DeadlineL1 judges (field names as in the spec).
@@ -39,6 +40,7 @@ type Obs struct {
 	OnInt    string `json:"onint"`
 	OK       bool   `json:"ok"`
 	Neg      bool   `json:"neg"`
+	After    int64  `json:"after"`
 	Start    int64  `json:"start"`
 	Sig      int64  `json:"sig"`
 	SelfExit int64  `json:"selfexit"`
@@ -98,16 +100,22 @@ type rootT struct {
 	mu   sync.Mutex
 	subs map[string]*subT
 	wg   sync.WaitGroup
+	seq  bool // run subtests one after the other (Parallel is a no-op, as in cmd/testscript's runner)
 }
 
 // Run starts the subtest and returns at once: every subtest of RunT calls Parallel first.
+// With seq set it runs the subtest to its end before it returns.
 func (r *rootT) Run(name string, f func(testscript.T)) {
 	st := &subT{root: r}
 	r.mu.Lock()
 	r.subs[name] = st
 	r.mu.Unlock()
 	r.wg.Add(1)
-	go func() {
+	run := func(g func()) { go g() }
+	if r.seq {
+		run = func(g func()) { g() }
+	}
+	run(func() {
 		defer r.wg.Done()
 		defer func() {
 			e := recover()
@@ -126,7 +134,7 @@ func (r *rootT) Run(name string, f func(testscript.T)) {
 			st.mu.Unlock()
 		}()
 		f(st)
-	}()
+	})
 }
 
 // ---- scheduling jitter monitor ----
@@ -221,6 +229,7 @@ type group struct {
 	id    int
 	D     int64
 	cases []Case
+	after int64 // > 0: sequential T, one early script in front of the (single) case
 }
 
 // classify reads the failure message (the "FAIL:" line of the script log, script path removed)
@@ -394,14 +403,28 @@ func runGroup(g group, self, work string, col *collector, jm *jitterMon, spawnMa
 		}
 		files = append(files, p)
 	}
-	root := &rootT{subs: map[string]*subT{}}
+	root := &rootT{subs: map[string]*subT{}, seq: g.after > 0}
 	root.subT.root = root
+	runFiles := files
+	predID := 0
+	if g.after > 0 {
+		predID = 1000000 + g.cases[0].ID
+		p := filepath.Join(dir, fmt.Sprintf("a%d.txt", g.cases[0].ID))
+		line := fmt.Sprintf("exec %s child -sock %s -id %d -x %d -onint die -status 0\n", self, col.path, predID, g.after)
+		if err := os.WriteFile(p, []byte(line), 0o644); err != nil {
+			vutil.Fatalf("write script: %v", err)
+		}
+		runFiles = append([]string{p}, files...)
+	}
 
 	// ---- the call under observation ----
 	t0 := monoUS()
 	col.mu.Lock()
 	for _, c := range g.cases {
 		col.t0[c.ID] = t0
+	}
+	if predID != 0 {
+		col.t0[predID] = t0
 	}
 	col.mu.Unlock()
 	deadline := time.Now().Add(time.Duration(g.D)*time.Millisecond - time.Duration(monoUS()-t0)*time.Microsecond)
@@ -414,7 +437,7 @@ func runGroup(g group, self, work string, col *collector, jm *jitterMon, spawnMa
 				root.failed = true
 			}
 		}()
-		testscript.RunT(root, testscript.Params{Files: files, Deadline: deadline})
+		testscript.RunT(root, testscript.Params{Files: runFiles, Deadline: deadline})
 	}()
 	allDone := make(chan struct{})
 	go func() {
@@ -463,7 +486,7 @@ func runGroup(g group, self, work string, col *collector, jm *jitterMon, spawnMa
 		root.mu.Lock()
 		st := root.subs[names[i]]
 		root.mu.Unlock()
-		o := Obs{ID: c.ID, Label: c.Label, D: g.D, X: c.X, OnInt: c.OnInt, OK: c.OK, Neg: c.Neg,
+		o := Obs{ID: c.ID, Label: c.Label, D: g.D, X: c.X, OnInt: c.OnInt, OK: c.OK, Neg: c.Neg, After: c.After,
 			Start: cl.start, Sig: cl.sig, SelfExit: cl.selfexit, Last: cl.last, RunDone: rel(runDone),
 			SRun: srun, Gap: cl.gap, Beats: cl.beats, CLog: cl.raw, SigName: cl.signame, Pid: cl.pid, Group: g.id, Verdict: "none", Msg: "none", Done: -1}
 		if o.SigName == "" {
@@ -572,10 +595,15 @@ func runMain(plan, traces, out, work string, par, groupSize, smin, stagger int) 
 	rng := vutil.Rand(17)
 	rng.Shuffle(len(cases), func(i, j int) { cases[i], cases[j] = cases[j], cases[i] })
 	byD := map[int64][]Case{}
+	var groups []group
 	for _, c := range cases {
+		if c.After > 0 {
+			groups = append(groups, group{D: c.D, cases: []Case{c}, after: c.After})
+			res.Count("late_starting_scripts", 1)
+			continue
+		}
 		byD[c.D] = append(byD[c.D], c)
 	}
-	var groups []group
 	for d, cs := range byD {
 		for i := 0; i < len(cs); i += groupSize {
 			j := i + groupSize
